@@ -6,7 +6,24 @@ VERIF = os.path.dirname(os.path.dirname(os.path.abspath(__file__)))
 PENDING = ('check not built yet (framework under construction); will be '
            'claimed once its TLA+ spec and conformance harness exist')
 
+REPLAY = ('; TLC-generated states/behaviours replayed into the real code '
+          '(spec->code conformance, both implementations)')
+
 CHECKS = {
+    'C01': dict(
+        spec='Declarations.tla (MC_Declarations)',
+        text='TLC explores all interleavings of the declaration API '
+             '(classImplements/Only/First, directlyProvides, alsoProvides, '
+             'noLongerProvides, class-level provides, first queries) on four '
+             'class shapes and checks ProvidedWithinInterval (mechanism state '
+             'within the ghost [must, may] interval of the declaration '
+             'history), NoLeak and the action property Unrelated; one '
+             'shortest behaviour per reachable state plus random long '
+             'behaviours are replayed into real classes/instances and every '
+             'entry point (providedBy, implementedBy, I.providedBy, '
+             'I.implementedBy, directlyProvidedBy, fresh instances, class '
+             'objects) compared with the interval.',
+        ref='DESIGN.md 3.3, 4 C01'),
     'C02': dict(
         spec='SpecGraph.tla (MC_SpecGraph_dag, MC_SpecGraph_hist)',
         text='TLC checks ImpliedIsReach / DepsExact / FreshEquiv of the '
@@ -25,6 +42,119 @@ CHECKS = {
              'test for __sro__, __iro__, ro(strict=True), is_consistent, '
              'with CPython type.mro() guarding the spec itself.',
         ref='DESIGN.md 3.1, 4 C03'),
+    'C04': dict(
+        spec='Registry.tla (MC_Registry order configs)',
+        text='TLC checks WalkIsBest (the modelled nested _lookup walk returns '
+             'a rank-minimal applicable registration: registry order, then '
+             'required positions left to right, then most general provided) '
+             'and ExtOK in every registry content of the bound; each state is '
+             'rebuilt on a real registry in random order with noise and every '
+             'lookup key / entry point compared with the admissible set.',
+        ref='DESIGN.md 3.6, 4 C04'),
+    'C05': dict(
+        spec='Registry.tla (MC_Registry cache configs, push and verify)',
+        text='TLC checks CacheTransparent over all interleavings of lookup / '
+             'lookupAll / subscriptions (caches, watch sets and generation '
+             'snapshots modelled as implemented) with register, unregister, '
+             'subscribe, unsubscribe, registry re-basing and re-basing of '
+             'required specifications; every transition is replayed sparsely '
+             '(only the queries of the behaviour) and probed densely at the '
+             'end against admissible sets computed from primary state only.',
+        ref='DESIGN.md 3.6, 4 C05'),
+    'C06': dict(
+        spec='Registry.tla (MC_Registry chain configs, push and verify)',
+        text='TLC checks RoIsFresh and WalkIsBest/CacheTransparent for chains '
+             'and DAGs of three (exhaustive) and four (random) registries of '
+             'both flavours with __bases__ reassigned at any level and '
+             'registrations in any member; all transitions replayed on real '
+             'AdapterRegistry / VerifyingAdapterRegistry chains.',
+        ref='DESIGN.md 3.6, 4 C06'),
+    'C07': dict(
+        spec='Registry.tla (MC_Registry subscription configs)',
+        text='TLC checks SubsExact (result is a concatenation of exactly the '
+             'applicable live subscription entries, base registries first, '
+             'more general required tuples first, subscription order kept) '
+             'on every subscription content of the bound over two '
+             'registries; states replayed with duplicates, handlers, '
+             'arity 0..2 and compared through subscriptions / subscribers / '
+             'subscribed / allSubscriptions.',
+        ref='DESIGN.md 3.6, 4 C07'),
+    'C08': dict(
+        spec='Registry.tla (MC_Registry cache + order configs)',
+        text='TLC checks EntryPointsAgree on the mechanism and the replay '
+             'asks every entry point (lookup with tuple/list/lazy required, '
+             'lookup1, adapter_hook, queryAdapter, queryMultiAdapter, '
+             'lookupAll, names, subscribers) for every key in every state and '
+             'along every transition (the entry point used by a behaviour\'s '
+             'query steps is drawn per step), comparing each with the same '
+             'admissible set, defaults by identity, factories returning None, '
+             'non-string names on cold and warm caches.',
+        ref='DESIGN.md 3.6, 4 C08'),
+    'C09': dict(
+        spec='Registry.tla (MC_Registry bookkeeping configs)',
+        text='TLC explores register / re-register / unregister (with and '
+             'without value, equal-but-distinct values) / subscribe / '
+             'unsubscribe / rebuild histories; each transition is replayed '
+             'and registered / allRegistrations / subscribed / '
+             'allSubscriptions compared with the net effect; copying into a '
+             'fresh registry and rebuild() must answer every probe '
+             'identically.',
+        ref='DESIGN.md 3.6, 4 C09'),
+    'C10': dict(
+        spec='ApiProgram.tla (MC_ApiProgram) + Registry / Declarations / '
+             'SpecGraph corpora',
+        text='Refinement of the same specifications by both implementations: '
+             'TLC-generated behaviours of the domain specifications are '
+             'accepted under PURE_PYTHON=0 and =1, and TLC-generated whole '
+             'API programs (ApiProgram.tla: every operation family, odd '
+             'operands, bad names, cached answers through every entry point, '
+             'renamed interfaces, re-entrant hooks) whose results the '
+             'specification leaves unconstrained are executed under both '
+             'implementations and their observation traces compared step by '
+             'step (value / exception type).',
+        ref='DESIGN.md 3.10, 4 C10',
+        tech_extra='; trace-against-trace comparison of the two '
+                   'implementations on TLC-generated API programs'),
+    'C11': dict(
+        spec='LookupMem.tla (MC_LookupMem, TraceLookupMem)',
+        text='TLC explores every call-out point of every lookup entry point x '
+             'every foreign action (mutate, raise, re-enter) x thread '
+             'interleavings at call-outs and checks NoUseAfterFree, '
+             'RefcountBalanced, NoStaleSurvives, AnswerLinearizable; the '
+             'schedules are injected deterministically into the real C and '
+             'Python lookups with an ownership audit of the cache containers, '
+             'leak audit on exceptional exits, and real-thread stress whose '
+             'call log is validated by TraceLookupMem.',
+        ref='DESIGN.md 3.7, 4 C11',
+        tech_extra='; recorded call logs validated by TLC (code->spec)'),
+    'C12': dict(
+        spec='Ordering.tla (MC_Ordering)',
+        text='TLC checks the comparison laws (C short-cut = tuple comparison '
+             'of (name, module), total order, hash consistency, None last, '
+             'NotImplemented for key-less operands) over all pairs/triples of '
+             'the universe; every pair is evaluated on real interfaces and '
+             'class specifications, and sorted sequences must be identical '
+             'across hash seeds and implementations.',
+        ref='DESIGN.md 3.4, 4 C12'),
+    'C13': dict(
+        spec='Declarations.tla (MC_Declarations, RoundTrip*)',
+        text='At every reachable declaration state (and along random long '
+             'behaviours) every interface, class specification, instance and '
+             'class provides-declaration and declared object is really '
+             'pickled and unpickled with all protocols; identity / equality / '
+             'hash-equality / provided sets are compared with the spec '
+             '(RoundTripIdentity, RoundTripSameInterfaces) and the pickle '
+             'opcodes are scanned for definition state.',
+        ref='DESIGN.md 3.3, 4 C13'),
+    'C14': dict(
+        spec='Adapt.tla (MC_Adapt)',
+        text='TLC walks every combination of __conform__ behaviour, provided '
+             'or not, hook lists, alternate, custom __adapt__ through the '
+             'step machine of IB__call__ and checks outcome = Expected, '
+             'NoLaterStep, ExceptionsPropagate, CustomReplaces; every '
+             'terminal state is executed on the real interface call (C and '
+             'Python) comparing outcome and call log.',
+        ref='DESIGN.md 3.5, 4 C14'),
     'C15': dict(
         spec='SpecGraph.tla (MC_SpecGraph_dag, MC_SpecGraph_hist)',
         text='TLC checks MemoSound / AccessorsAgree on every DAG x every '
@@ -33,6 +163,51 @@ CHECKS = {
              'accessors (getitem/get/in/iter/names/namesAndDescriptions/'
              'tagged values/invariants) compared with the spec owner.',
         ref='DESIGN.md 3.1, 4 C15'),
+    'C16': dict(
+        spec='Components.tla (MC_Components)',
+        text='TLC explores the eight register*/unregister* methods with '
+             'equal / identical / hashable / unhashable components, names, '
+             'related provided interfaces, factories, re-initialisation and '
+             'checks ListingsExact, RegistriesMatch, EventsExact, '
+             'ReturnValueExact, CounterExact; every transition is replayed '
+             'on a real Components with notify recorded, comparing listings, '
+             'queries, events, return values and '
+             'rebuildUtilityRegistryFromLocalCache().',
+        ref='DESIGN.md 3.8, 4 C16'),
+    'C17': dict(
+        spec='Signatures.tla (MC_Signatures, verify modes)',
+        text='TLC checks Incompat # None <=> some admitted call shape does '
+             'not bind, and the aggregation rule, over the whole signature '
+             'grid; every grid point becomes real interface/implementation '
+             'functions run through verifyObject / verifyClass, with '
+             'inspect.signature guarding the specification.',
+        ref='DESIGN.md 3.9, 4 C17'),
+    'C18': dict(
+        spec='Signatures.tla (MC_Signatures, describe mode)',
+        text='TLC checks Describe(sig) = Truth(sig) (fromFunction\'s index '
+             'arithmetic over the code object layout) over all signatures of '
+             'the grid including positional-only, keyword-only, bound '
+             'methods; each signature is exec\'ed into a real function and '
+             'getSignatureInfo / getSignatureString compared.',
+        ref='DESIGN.md 3.9, 4 C18'),
+    'C19': dict(
+        spec='Declarations.tla (MC_Declarations, WithSuper)',
+        text='TLC checks SuperIsRestOfMro with the per-class super cache and '
+             'its invalidation modelled, over all class-declaration '
+             'histories with super queries interleaved on diamond / mixin / '
+             'chain shapes; behaviours replayed with real super() proxies '
+             'through providedBy, implementedBy, I.providedBy and registry '
+             'adaptation (queryAdapter, adapter_hook, queryMultiAdapter).',
+        ref='DESIGN.md 3.3, 4 C19'),
+    'C20': dict(
+        spec='DeclAlgebra.tla (MC_DeclAlgebra)',
+        text='TLC evaluates the ordered-set laws (iteration, membership, '
+             'flattened, -, +, operands unchanged) as invariants over every '
+             'pair of declarations of the universe and nested argument '
+             'shapes; every pair is evaluated on real Declaration / '
+             'Implements / Provides operands and through alsoProvides / '
+             'noLongerProvides / directlyProvidedBy.',
+        ref='DESIGN.md 3.2, 4 C20'),
 }
 
 NOTE = ('bounded universes (constants in evidence tlc_runs); trusted: TLC, '
@@ -62,7 +237,8 @@ def main():
             'level_note': c.get('note', NOTE),
             'technique': 'explicit TLA+ spec (%s) model-checked with TLC; '
                          'TLC-generated states/behaviours replayed into the '
-                         'real code (spec->code conformance)%s' % (
+                         'real code under both implementations (spec->code '
+                         'conformance)%s' % (
                              c['spec'], c.get('tech_extra', '')),
         })
     m = {
